@@ -25,7 +25,8 @@ def log(msg):
 
 
 def corpus_dir(st):
-    d = st.get("corpus", COMMITTED)
+    # VERIF_C17_CORPUS_DIR: development aid (judge another directory, e.g. everything a campaign found, before committing a corpus)
+    d = os.environ.get("VERIF_C17_CORPUS_DIR") or st.get("corpus", COMMITTED)
     n = len([f for f in os.listdir(d) if not f.startswith(".")]) if os.path.isdir(d) else 0
     return d, n, {"fuzz_committed_corpus_files": n}
 
